@@ -125,10 +125,12 @@ def run_expr(case):
         g = NL.generic(10, k, core.get_seed() if hasattr(core, "get_seed") else 0, lo=-0.9, hi=1.4)
         pts.append(g)
     hashes = []
+    kept = []
     for ast in case["exprs"]:
-        e = ev16(CA, s, ast)
+        e = ca.MX(ev16(CA, s, ast))
+        kept.append((ast, e))
         try:
-            de = st.der(ca.MX(e))
+            de = st.der(e)
             F = ca.Function("d", ins, [de], {"allow_free": True})
             if F.has_free():
                 vios.append(dict(sig="value:der:free", tags=tags, detail="der(%s) mentions symbols outside the model: %s" % (ast, F.get_free()))); continue
@@ -153,6 +155,35 @@ def run_expr(case):
                 vios.append(dict(sig="value:der", tags=tags, detail="der(%s) = %s, total derivative along the dynamics = %s" % (ast, np.round(got, 8), np.round(want, 8))))
                 break
         hashes.append(str(ast))
+    # history: the ODE of x is declared again (twice the old right-hand side); der() must follow the new dynamics,
+    # also for expressions whose derivative was asked for before
+    if not vios:
+        try:
+            f_old = P.rhs(CA, s, d)
+            st.set_der(s["x"], 2 * f_old["x"])
+            for ast, e in kept[:12]:
+                de = st.der(e)          # the very same expression object as before the re-declaration
+                F = ca.Function("d", ins, [de], {"allow_free": True})
+                g = pts[0]
+                xv = g[0:2]; yv = g[2]; tv = g[3] + 1.0; pg = g[4]; vg = g[5]; uv = g[6:6 + nu]; pc = g[8]; vc = g[9]
+                env = {"x": xv.reshape(2, 1), "y": yv, "t": tv, "pg": pg, "vg": vg, "T": 1.9, "t0": 0.7}
+                if nu: env["u"] = uv.reshape(-1, 1)
+                if d["pc"]: env["pc"] = pc
+                if d["vc"]: env["vc"] = vc
+                f = P.rhs(NP, env, d)
+                fx = 2 * np.asarray(f["x"], dtype=float).reshape(-1); fy = float(np.asarray(f["y"]).reshape(-1)[0])
+                denv = {"x": [Dual(xv[0], fx[0]), Dual(xv[1], fx[1])], "y": Dual(yv, fy), "t": Dual(tv, 1.0), "pg": Dual(pg, 0.0), "vg": Dual(vg, 0.0)}
+                want = ev16(DU, denv, ast)
+                want = np.array([w_.b for w_ in (want if isinstance(want, list) else [want])])
+                args = [xv, yv, tv, pg, vg] + ([uv] if nu else []) + ([pc] if d["pc"] else []) + ([vc] if d["vc"] else [])
+                got = np.array(F(*args)).reshape(-1)
+                evals += 1
+                if got.shape != want.shape or not NL.close(got, want, 1e-10):
+                    vios.append(dict(sig="value:der:after-redeclared-ode", tags=tags, detail="after set_der(x, 2*rhs): der(%s) = %s, along the new dynamics %s" % (ast, np.round(got, 8), np.round(want, 8))))
+                    break
+        except Exception as ex:
+            fr = core.rockit_frame(sys.exc_info()[2])
+            vios.append(dict(sig="exception:der:redeclare:%s" % (fr or type(ex).__name__), tags=tags, detail="%s: %s" % (type(ex).__name__, str(ex)[:150])))
     seen = set(); uniq = []
     for v in vios:
         if v["sig"] not in seen:
@@ -269,6 +300,6 @@ def run_case(case):
 
 def describe(tier):
     return dict(
-        rule="(c) der and der(der) of B-spline parameters of order 1..4 sampled under SplineMethod vs the analytic spline derivative in physical time; (a) every expression AST up to depth %s over {x_0, x_1, y, t, global parameter, global variable} (unary sin/square/neg/affine, binary mul/add/sub, vector-valued) x 5 ODE models (time-dependent, two controls, no control, per-interval parameter and variable; global parameter AND variable in the rhs) x 3 generic points: ocp.der(e) = forward-mode dual-number derivative of e along (rhs, 1) computed by the reference's own arithmetic; (b) controls of order 1..4 x method x N,M: der walks the chain (states, then the control), der^(k+1) raises, and at a dynamically feasible point every chain member sampled with refine=4 equals the Taylor polynomial built from the higher members" % ("3" if tier == "thorough" else "2"),
+        rule="(c) der and der(der) of B-spline parameters of order 1..4 sampled under SplineMethod vs the analytic spline derivative in physical time; (a) every expression AST up to depth %s over {x_0, x_1, y, t, global parameter, global variable} (unary sin/square/neg/affine, binary mul/add/sub, vector-valued) x 5 ODE models (time-dependent, two controls, no control, per-interval parameter and variable; global parameter AND variable in the rhs) x 3 generic points: ocp.der(e) = forward-mode dual-number derivative of e along (rhs, 1) computed by the reference's own arithmetic, again after the ODE is declared a second time (history: der, set_der, der); (b) controls of order 1..4 x method x N,M: der walks the chain (states, then the control), der^(k+1) raises, and at a dynamically feasible point every chain member sampled with refine=4 equals the Taylor polynomial built from the higher members" % ("3" if tier == "thorough" else "2"),
         bound="AST depth %d; control order <=4" % (3 if tier == "thorough" else 2),
         assumptions=["CasADi Function evaluation is trusted", "B-spline signal derivatives use the scipy oracle of C17 (SplineMethod; under sampling methods der of a signal is a recorded finding of C17)"])
